@@ -434,50 +434,59 @@ func (c *Call) updateLocations(goroot, localgoroot string, localgomods, gopaths 
 			return true
 		}
 	}
-	// Check GOPATH.
-	// TODO(maruel): Sort for deterministic behavior?
+	// Check GOPATH. Roots can overlap; the longest matching root wins so the
+	// result does not depend on the map iteration order.
+	root, rootDest, rootDir := "", "", ""
 	for prefix, dest := range gopaths {
-		if p := prefix + "/src/"; strings.HasPrefix(c.RemoteSrcPath, p) {
-			c.RelSrcPath = c.RemoteSrcPath[len(p):]
-			c.LocalSrcPath = pathJoin(dest, "src", c.RelSrcPath)
-			if i := strings.LastIndexByte(c.RelSrcPath, '/'); i != -1 {
-				c.ImportPath = c.RelSrcPath[:i]
-			}
-			if c.Location == LocationUnknown {
-				c.Location = GOPATH
-			}
-			return true
+		if rootDir != "" && len(prefix) <= len(root) {
+			continue
 		}
-		// For modules, the path has to be altered, as it contains the version.
-		if p := prefix + "/pkg/mod/"; strings.HasPrefix(c.RemoteSrcPath, p) {
-			c.RelSrcPath = c.RemoteSrcPath[len(p):]
-			c.LocalSrcPath = pathJoin(dest, "pkg/mod", c.RelSrcPath)
-			if i := strings.LastIndexByte(c.RelSrcPath, '/'); i != -1 {
-				c.ImportPath = c.RelSrcPath[:i]
-			}
-			if c.Location == LocationUnknown {
-				c.Location = GoPkg
-			}
-			return true
+		if strings.HasPrefix(c.RemoteSrcPath, prefix+"/src/") {
+			root, rootDest, rootDir = prefix, dest, "src"
+		} else if strings.HasPrefix(c.RemoteSrcPath, prefix+"/pkg/mod/") {
+			// For modules, the path has to be altered, as it contains the version.
+			root, rootDest, rootDir = prefix, dest, "pkg/mod"
 		}
 	}
-	// Check Go modules.
+	if rootDir != "" {
+		c.RelSrcPath = c.RemoteSrcPath[len(root)+len(rootDir)+2:]
+		c.LocalSrcPath = pathJoin(rootDest, rootDir, c.RelSrcPath)
+		if i := strings.LastIndexByte(c.RelSrcPath, '/'); i != -1 {
+			c.ImportPath = c.RelSrcPath[:i]
+		}
+		if c.Location == LocationUnknown {
+			if rootDir == "src" {
+				c.Location = GOPATH
+			} else {
+				c.Location = GoPkg
+			}
+		}
+		return true
+	}
+	// Check Go modules. Modules can be nested; the innermost one wins.
 	// Go module path detection only works with stack traces created on the local
 	// file system.
+	mod, modPkg, found := "", "", false
 	for prefix, pkg := range localgomods {
-		if strings.HasPrefix(c.RemoteSrcPath, prefix+"/") {
-			c.RelSrcPath = c.RemoteSrcPath[len(prefix)+1:]
-			c.LocalSrcPath = c.RemoteSrcPath
-			if i := strings.LastIndexByte(c.RelSrcPath, '/'); i != -1 {
-				c.ImportPath = pkg + "/" + c.RelSrcPath[:i]
-			} else {
-				c.ImportPath = pkg
-			}
-			if c.Location == LocationUnknown {
-				c.Location = GoMod
-			}
-			return true
+		if found && len(prefix) <= len(mod) {
+			continue
 		}
+		if strings.HasPrefix(c.RemoteSrcPath, prefix+"/") {
+			mod, modPkg, found = prefix, pkg, true
+		}
+	}
+	if found {
+		c.RelSrcPath = c.RemoteSrcPath[len(mod)+1:]
+		c.LocalSrcPath = c.RemoteSrcPath
+		if i := strings.LastIndexByte(c.RelSrcPath, '/'); i != -1 {
+			c.ImportPath = modPkg + "/" + c.RelSrcPath[:i]
+		} else {
+			c.ImportPath = modPkg
+		}
+		if c.Location == LocationUnknown {
+			c.Location = GoMod
+		}
+		return true
 	}
 	// Maybe the path is just absolute and exists?
 	return false
